@@ -13,6 +13,7 @@ import (
 	"github.com/llir/llvm/ir/types"
 	"pgregory.net/rapid"
 
+	"verif/h/am"
 	"verif/h/corpus"
 	"verif/h/gen"
 	"verif/h/hx"
@@ -325,6 +326,113 @@ func checkText(t hx.TB, test, src, x string, own bool) bool {
 	return true
 }
 
+// bindings checks, for a module of the own generator, that direct references to top-level entities are
+// bound to the entity the *generator* meant: the abstract model knows which global, function or alias
+// every reference denotes, and the parsed module lists them in textual order, so am entity k of a kind
+// corresponds to the k-th listed object of that kind. (The identity oracle alone cannot see a use that
+// is bound to another, existing definition.) Checked: global initialisers and alias targets that are a
+// plain address, callees of calls and invokes, and operands that are plain addresses.
+func bindings(m *am.Module, pm *ir.Module) (errs []string, n int) {
+	obj := map[any]any{}
+	var gs []*am.Global
+	var fs []*am.Fun
+	var as, ifs []*am.Alias
+	for _, t := range m.Order {
+		switch t.K {
+		case am.TopGlobal:
+			gs = append(gs, m.Globals[t.Idx])
+		case am.TopFunc:
+			fs = append(fs, m.Funcs[t.Idx])
+		case am.TopAlias:
+			if a := m.Aliases[t.Idx]; a.IFunc {
+				ifs = append(ifs, a)
+			} else {
+				as = append(as, a)
+			}
+		}
+	}
+	if len(gs) != len(pm.Globals) || len(fs) != len(pm.Funcs) || len(as) != len(pm.Aliases) || len(ifs) != len(pm.IFuncs) {
+		return nil, 0
+	}
+	for i, g := range gs {
+		obj[g] = pm.Globals[i]
+	}
+	for i, f := range fs {
+		obj[f] = pm.Funcs[i]
+	}
+	for i, a := range as {
+		obj[a] = pm.Aliases[i]
+	}
+	for i, a := range ifs {
+		obj[a] = pm.IFuncs[i]
+	}
+	same := func(where string, c *am.Const, got any) {
+		if c == nil || c.K != am.CGlobal || c.Ref == nil {
+			return
+		}
+		want, ok := obj[c.Ref]
+		if !ok {
+			return
+		}
+		if a, isArg := got.(*ir.Arg); isArg {
+			got = a.Value
+		}
+		n++
+		if got != want {
+			errs = append(errs, fmt.Sprintf("%s: the text refers to %s, the parsed module holds %v there (another definition)", where, am.RefName(c.Ref), identOf(got)))
+		}
+	}
+	for i, g := range gs {
+		if g.Init != nil {
+			same("initialiser of global #"+fmt.Sprint(i), g.Init, pm.Globals[i].Init)
+		}
+	}
+	for i, a := range as {
+		same("aliasee of alias #"+fmt.Sprint(i), a.Aliasee, pm.Aliases[i].Aliasee)
+	}
+	for i, a := range ifs {
+		same("resolver of ifunc #"+fmt.Sprint(i), a.Aliasee, pm.IFuncs[i].Resolver)
+	}
+	for fi, f := range fs {
+		pf := pm.Funcs[fi]
+		if len(f.Blocks) != len(pf.Blocks) {
+			continue
+		}
+		for bi, b := range f.Blocks {
+			pb := pf.Blocks[bi]
+			if len(b.Insts) != len(pb.Insts) {
+				continue
+			}
+			for ii, in := range b.Insts {
+				where := fmt.Sprintf("function #%d block %d inst %d (%s)", fi, bi, ii, in.Op)
+				if pc, ok := pb.Insts[ii].(*ir.InstCall); ok && in.Callee != nil && in.Callee.K == am.VConst {
+					same(where+" callee", in.Callee.C, pc.Callee)
+					for k, a := range in.Args {
+						if a.K == am.VConst && k < len(pc.Args) {
+							same(where+" argument", a.C, pc.Args[k])
+						}
+					}
+				}
+				if ps, ok := pb.Insts[ii].(*ir.InstStore); ok && len(in.Args) == 2 {
+					if in.Args[0].K == am.VConst {
+						same(where+" stored value", in.Args[0].C, ps.Src)
+					}
+					if in.Args[1].K == am.VConst {
+						same(where+" address", in.Args[1].C, ps.Dst)
+					}
+				}
+				if pl, ok := pb.Insts[ii].(*ir.InstLoad); ok && len(in.Args) == 1 && in.Args[0].K == am.VConst {
+					same(where+" address", in.Args[0].C, pl.Src)
+				}
+			}
+			if pi, ok := pb.Term.(*ir.TermInvoke); ok && b.Term != nil && b.Term.Callee != nil && b.Term.Callee.K == am.VConst {
+				same(fmt.Sprintf("function #%d block %d invoke callee", fi, bi), b.Term.Callee.C, pi.Invokee)
+			}
+		}
+	}
+	return
+}
+
 func TestGenerated(t *testing.T) {
 	const test = "Generated"
 	hx.Rule(test, "modules of the typed generator (recursive and mutually recursive types, globals initialised with each other's and functions' addresses, phi and branch cycles, uses before definitions in layout order, blockaddress inside functions and in global initialisers of blocks of other functions, metadata cycles through distinct nodes, identical local names in different functions, comdats, attribute groups, aliases) in shuffled textual order: every global/function/alias/ifunc/comdat/attribute-group/numbered-metadata/named-type object met anywhere in the parsed module is pointer-identical to the object the module lists; every parameter/block/instruction met as an operand belongs to the enclosing function (blockaddress: to the named function); Parent links agree with containment; non-trivial = at least one forward or cross reference and one cycle (CFG back edge, recursive type or metadata cycle)")
@@ -335,6 +443,13 @@ func TestGenerated(t *testing.T) {
 		gen.SparseMetadataIDs(rt, m)
 		x := m.TextNoisy(gen.DrawNoiseWithAliases(rt))
 		hx.Eval(1)
+		if pm, err, p := lx.Parse(x); err == nil && p == nil {
+			errs, nb := bindings(m, pm)
+			hx.HistN("bindings_checked_against_the_model", nb)
+			if len(errs) > 0 && llvmx.Accept(x).OK {
+				hx.Fail(rt, test, "ll", "; source: own-generator\n"+x, "%s", strings.Join(errs, "\n"))
+			}
+		}
 		if checkText(rt, test, "own-generator", x, true) {
 			refs := feats["const/global-address"]+feats["const/blockaddress"]+feats["const/blockaddress-in-global"]+feats["inst/phi"]+feats["md/forward-ref"] > 0
 			cyc := feats["cfg/back-edge"]+feats["type/recursive"]+feats["md/cycle"] > 0
